@@ -34,16 +34,16 @@ func noSlash(s string) bool { return !strings.Contains(s, "/") && s != "" }
 // base paths yields a URL that is routed to the method with the same values.
 func VerifC02_a4_base_paths() {
 	// one wildcard value is symbolic at a time (the others are fixed and distinct)
-	tenant, user, part := "t", "u", "p"
+	tenant, user, part := "t", 7, "p"
 	switch nondetChoice("symbolic-wildcard", 3) {
 	case 0:
 		tenant = nondetString("tenant", 1)
 	case 1:
-		user = nondetString("user", 1)
+		user = nondetInt("user")
 	default:
 		part = nondetString("part", 1)
 	}
-	verifAssume(noSlash(tenant) && noSlash(user) && noSlash(part))
+	verifAssume(noSlash(tenant) && noSlash(part))
 	var got *memberships.ShowPayload
 	eps := &memberships.Endpoints{Show: func(ctx context.Context, v any) (any, error) {
 		got = v.(*memberships.ShowPayload)
